@@ -33,7 +33,7 @@ Theorem C02_markers_are_the_extents :
 Proof. exact markers_spec. Qed.
 Print Assumptions C02_markers_are_the_extents.
 
-(** Non-vacuity: "a <tl to='2000-01-01 00:00:00'>x</tl>\n b" cleans to "a  b" (the line break after the inline removal is tidied away): clean returns, and the
+(** Non-vacuity: "a <tl to='2000-01-01 00:00:00'>x</tl>\n b" cleans to "a \n b" (the line break after an inline removal is kept): clean returns, and the
     extent is the element [2, 38). *)
 Definition ex_src : str :=
   [97;32;60;116;108;32;116;111;61;39;50;48;48;48;45;48;49;45;48;49;32;48;48;58;48;48;58;48;48;39;62;120;60;47;116;108;62;10;32;98]%N.
@@ -41,7 +41,7 @@ Definition ex_cfg : config := mkConfig [116;108]%N [43;48;48;58;48;48]%N 1000000
 Example C02_example :
   wf_utf8 ex_src = true /\
   (exists parts, front_end [60%N] [62%N] ex_src = Ok parts /\ extents ex_cfg ex_src parts = [(2, 37)]) /\
-  clean ex_cfg [60%N] [62%N] ex_src = Ok [97;32;32;98]%N.
+  clean ex_cfg [60%N] [62%N] ex_src = Ok [97;32;10;32;98]%N.
 Proof.
   split. { vm_compute. reflexivity. }
   split. { eexists. split. { vm_compute. reflexivity. } vm_compute. reflexivity. }
